@@ -7,6 +7,7 @@ import (
 	"fmt"
 	"io"
 	"net/http"
+	"runtime"
 	"sync"
 
 	"github.com/modelcontextprotocol/go-sdk/internal/verifharness/vh"
@@ -91,7 +92,7 @@ func Connect(ctx context.Context, o PairOpts) (*Pair, error) {
 		copts = &mcp.ClientSessionOptions{ProtocolVersion: o.ClientVersion}
 	}
 	switch o.Kind {
-	case "mem", "pipe", "pipe-stubborn":
+	case "mem", "pipe", "pipe-stubborn", "pipe-chunked":
 		var st, ct mcp.Transport
 		if o.Kind == "mem" {
 			st, ct = mcp.NewInMemoryTransports()
@@ -104,6 +105,13 @@ func Connect(ctx context.Context, o PairOpts) (*Pair, error) {
 			st = &mcp.IOTransport{Reader: stubbornReader{in}, Writer: failCloseWriter{sw}}
 			ct = &mcp.IOTransport{Reader: cr, Writer: bufPipeWriter{in}}
 			p.Release = func() { in.CloseRead(nil) }
+		} else if o.Kind == "pipe-chunked" {
+			// Both writers forward every Write as several small writes (as a framing or buffering adapter
+			// would): whole messages stay intact only if the SDK itself serialises its writes.
+			cr, sw := io.Pipe()
+			sr, cw := io.Pipe()
+			st = &mcp.IOTransport{Reader: sr, Writer: &ChunkWriter{W: sw, N: 11}}
+			ct = &mcp.IOTransport{Reader: cr, Writer: &ChunkWriter{W: cw, N: 7}}
 		} else {
 			cr, sw := io.Pipe()
 			sr, cw := io.Pipe()
@@ -266,3 +274,27 @@ func (f *FaultConn) Close() error {
 	f.KillRead(io.EOF)
 	return f.Connection.Close()
 }
+
+// ChunkWriter forwards each Write as several smaller writes and yields in between. It keeps no
+// state, so it is safe for concurrent use, but it does not make concurrent Writes atomic.
+type ChunkWriter struct {
+	W io.WriteCloser
+	N int
+}
+
+func (cw *ChunkWriter) Write(p []byte) (int, error) {
+	total := 0
+	for len(p) > 0 {
+		k := min(cw.N, len(p))
+		n, err := cw.W.Write(p[:k])
+		total += n
+		if err != nil {
+			return total, err
+		}
+		p = p[k:]
+		runtime.Gosched()
+	}
+	return total, nil
+}
+
+func (cw *ChunkWriter) Close() error { return cw.W.Close() }
